@@ -210,3 +210,31 @@ func verifHarness_p03() {
 	}
 	verifCover(len(xs) == 3 && len(ys) == 2 && fails == 0, 1)
 }
+
+// C10: no-index Slice with an End hook
+func verifHarness_p07() {
+	ctx := verifNdCtx(false)
+	xs := verifMkSlice(10)
+	verifAllow("X2", 5)
+	fails := 0
+	verifRefBegin()
+	for _, x := range xs {
+		if p, _ := verifTry(func() { X2(x) }); p {
+			fails++
+		}
+	}
+	verifRefEnd()
+	err := Par07(ctx, xs)
+	verifAssert((err == nil) == (fails == 0), 1)
+	if fails == 0 {
+		verifAssert(verifCallCount("X2") == len(xs), 2)
+		verifAssert(verifCallCount("XE2") == 1, 3)
+		for c := range xs {
+			verifAssert(verifCallSeq("X2", c) < verifCallSeq("XE2", 0), 4)
+		}
+	} else {
+		verifAssert(verifCallCount("XE2") == 0, 5)
+	}
+	verifCover(len(xs) == 3 && fails == 0, 1)
+	verifCover(fails > 0, 2)
+}
